@@ -1187,7 +1187,11 @@ func (p *Parser) parseSimpleStmt(forIn bool) Stmt {
 					p.errorExpected(x[1].Pos(), "identifier")
 					value = &Ident{Name: "_", NamePos: x[1].Pos()}
 				}
-				//TODO: no more than 2 idents
+			default:
+				// no more than 2 identifiers
+				p.errorExpected(x[2].Pos(), "'in'")
+				key = &Ident{Name: "_", NamePos: x[0].Pos()}
+				value = &Ident{Name: "_", NamePos: x[1].Pos()}
 			}
 			return &ForInStmt{
 				Key:      key,
